@@ -13,7 +13,7 @@ from vlib import Check, tlc_mc, tlc_trace, require_mc, vh, scratch, build_harnes
 from checks import register
 
 MC = {"quick": [("SM_mc3.cfg", 300), ("SM_mc4.cfg", 600), ("SM_mc4sd.cfg", 300)],
-      "thorough": [("SM_mc3.cfg", 300), ("SM_mc4.cfg", 600), ("SM_mc4sd.cfg", 300), ("SM_mc5.cfg", 3000)]}
+      "thorough": [("SM_mc3.cfg", 300), ("SM_mc4.cfg", 600), ("SM_mc4sd.cfg", 300), ("SM_mc5.cfg", 7200)]}
 
 
 def sm_models(ck, tier):
